@@ -13,6 +13,9 @@ fn kvs_str(kv: &Kv) -> String {
 }
 
 pub fn c05(g: &mut G) {
+    // more streams than a 16-bit index can count; very long runs of shared keys
+    g.emit("!scale manystreams 70000".into());
+    g.emit("!scale bigdiff 400000".into());
     c05_universe(g, &universe(b"ab", 2), 1);
     // keys that differ only by trailing NUL bytes / are prefixes of each other with byte 0
     c05_universe(g, &universe(&[0x00, 0x61], 2), 4);
@@ -168,6 +171,49 @@ pub fn c06(g: &mut G) {
             }
         }
     }
+    // long keys: the last key kept for the ordering check is as long as the key (4096+ bytes),
+    // every depth up to 300 gets its first key, proper prefixes and extensions of long keys
+    {
+        let body = |l: usize, salt: usize| -> Vec<u8> { (0..l).map(|i| b'a' + ((i * 7 + i / 13 + salt) % 5) as u8).collect() };
+        let base = body(5000, 1);
+        let mut u: Vec<Vec<u8>> = vec![];
+        for l in [100usize, 128, 129, 130, 300, 4095, 4096, 4097, 4100, 5000] {
+            u.push(base[..l].to_vec());
+            let mut k = base[..l].to_vec();
+            let m = k.len() - 1;
+            k[m] = b'0'; // smaller than base at that position
+            u.push(k);
+            let mut k2 = base[..l].to_vec();
+            k2.push(b'z');
+            u.push(k2);
+        }
+        u.sort();
+        u.dedup();
+        for i in 0..(if g.thorough { 200 } else { 40 }) {
+            let mut rng = Rng::new(g.rng.next());
+            let mut calls: Vec<Call> = vec![];
+            let mut j = rng.below(3) as usize;
+            while j < u.len() {
+                calls.push(if i % 2 == 0 { Call::Ins(u[j].clone(), rng.below(500)) } else { Call::Add(u[j].clone()) });
+                // rejected calls: the same key, an earlier key, a proper prefix, a key that agrees
+                // with the last one on its first 4096 bytes but is smaller
+                while rng.chance(2, 5) {
+                    let back = rng.below(j as u64 + 1) as usize;
+                    let mut k = u[j - back].clone();
+                    if rng.chance(1, 3) {
+                        k.truncate(k.len().saturating_sub(1 + rng.below(3) as usize));
+                    }
+                    calls.push(if i % 2 == 0 { Call::Ins(k, rng.below(2)) } else { Call::Add(k) });
+                }
+                j += 1 + rng.below(3) as usize;
+            }
+            let fe = if i % 2 == 0 { ["map", "raw"][i / 2 % 2] } else { ["set", "raw"][i / 2 % 2] };
+            g.emit(build_line(fe, 0, if fe == "raw" { GEOMS[i % 7] } else { "default" }, "seq", &calls));
+            if i % 4 == 0 {
+                g.emit("stream always - -".into());
+            }
+        }
+    }
     // random long sequences with an error rate
     for i in 0..(if g.thorough { 400 } else { 60 }) {
         let mut rng = Rng::new(g.rng.next());
@@ -204,6 +250,18 @@ fn sample_inputs(g: &mut G) -> Vec<Vec<Call>> {
         v.push(ins_calls(&kv));
     }
     v.push(add_calls(&fanout_keys(40, false, false, true)));
+    // keys longer than 64 bytes whose 64th byte falls inside a multi-byte character, after a shorter one
+    {
+        let mut k1: Vec<u8> = std::iter::repeat(b'k').take(63).collect();
+        k1.extend_from_slice("é☃😀 tail".as_bytes());
+        let mut k0: Vec<u8> = std::iter::repeat(b'k').take(62).collect();
+        k0.extend_from_slice("ñ".as_bytes());
+        let mut k2 = k1.clone();
+        k2.extend_from_slice("…and more than a hundred and twenty-eight bytes in total, to be sure about it".as_bytes());
+        let mut ks = vec![b"a".to_vec(), k0, k1, k2];
+        ks.sort();
+        v.push(ins_calls(&ks.iter().enumerate().map(|(i, k)| (k.clone(), 1000 * i as u64 + 1)).collect::<Kv>()));
+    }
     v
 }
 
@@ -239,12 +297,13 @@ fn measure_w(calls: &[Call], script: &[Resp]) -> usize {
 }
 
 pub fn c07(g: &mut G) {
+    g.emit("!scale interrupts 200000".into());
     let inputs = sample_inputs(g);
     for calls in &inputs {
         let ops = show_calls(calls);
         let w = measure_w(calls, &[]);
-        // fixed caps 1..16: every call accepts at most `cap` bytes
-        for cap in 1..=16usize {
+        // fixed caps 1..16 (and some above 16 that are not multiples of 16): every call accepts at most `cap` bytes
+        for cap in (1..=16usize).chain([17usize, 20, 31, 33, 47, 100, 255, 257]) {
             let script: Vec<Resp> = (0..(w * 10 + 64)).map(|_| Resp::Take(cap)).collect();
             g.emit(format!("sink 0 default {} - _ {}", script_str(&script), ops));
         }
@@ -326,6 +385,13 @@ pub fn c11(g: &mut G) {
             script.push(Resp::Take(0));
             g.emit(format!("sink 0 default {} - _ {}", script_str(&script), ops));
         }
+        // a sink that takes 64 bytes per call and fails on a LATER fragment of a write (the
+        // 256-byte index of a wide node is one write): at every call index
+        for i in 0..(w * 3).min(if g.thorough { 400 } else { 90 }) {
+            let mut script: Vec<Resp> = (0..i).map(|_| Resp::Take(64)).collect();
+            script.push(if i % 3 == 0 { Resp::Take(0) } else { Resp::Fail((i as u64) % 12) });
+            g.emit(format!("sink 0 default {} - _ {}", script_str(&script), ops));
+        }
         // the final flush fails
         for kind in 0..12 {
             g.emit(format!("sink 0 default - {} _ {}", kind, ops));
@@ -350,6 +416,9 @@ pub fn c11(g: &mut G) {
 }
 
 pub fn c08(g: &mut G) {
+    // file sizes at every residue around multiples of 64 KiB / 128 KiB; a file of 17 MiB
+    g.emit("!scale sizes".into());
+    g.emit("!scale bigfile set 17".into());
     // checksum of arbitrary data across the 16-byte fast path boundary
     let maxlen = if g.thorough { 4096 } else { 600 };
     let mut len = 0usize;
